@@ -77,8 +77,11 @@ StepEv(m, ev) ==
   CASE ev.e = "ucall" -> [m |-> [m EXCEPT !.calls = PutFront(@, ev.n, Capacity), !.held[ev.n] = TRUE], bad |-> {}]
     [] ev.e = "enter" ->
          [m |-> m,
+          \* an unjustified start is a C02 violation; if a collection since the last run had to keep
+          \* the result it is a C03 violation as well (whether the result was dropped or merely
+          \* re-executed cannot be told apart from outside)
           bad |-> IF MayRun(m, ev.n) THEN {}
-                  ELSE IF m.surv[ev.n] THEN {"C03"} ELSE {"C02"}]
+                  ELSE IF m.surv[ev.n] THEN {"C02", "C03"} ELSE {"C02"}]
     [] ev.e = "exit" ->
          LET n == ev.n
              seen == SeqToSet(ev.ins)                       \* triples <<kind, id, value>>
